@@ -1432,3 +1432,40 @@ example : boolRun (callAt (scopeWorld [⟨true, 1, "C", .none⟩, ⟨false, 2, "
   decide +kernel
 
 end PyxProps.C14
+
+/-! ==========================================================================================================
+  SOURCE TIE, round 4 (builder extract-shape) — appended section.  Proofs/ExtractShapeScope.lean: the whole function
+  `is_contained_in` of the generated IR against `containedFuel` / `containedIn` (`contained_sound_interp`: induction over the
+  recursion depth; `cicIf_sound`: the `root in [ep_pkg, c_c]` test and the two recursive calls; `cicTail_sound` on
+  `refLoop_sound`: the loop over the referring packages; `cic_key`: the case split over the Parent).  Partial correctness:
+  WHENEVER the interpretation returns, it returns the model's value — termination of the interpreted recursion (Python:
+  RecursionError on cyclic containment) is not proved.  This is the reading Props/C20's `oracle` gives to
+  ooaofooa.is_contained_in.
+  ========================================================================================================== -/
+namespace PyxProps.C14
+open Pyx.Extract Pyx.XShape Pyx.Gen.ExtractShape
+
+/-- `is_contained_in(x, root)` interpreted from the IR generated from the source, for ANY containers and EP_PKGREF rows, root the
+    C_C row with id `root`, x None / a PE_PE / an EP_PKG / a C_C: whenever the call returns at recursion depth f it returns
+    `containedFuel cs rf root f` of the Parent x stands for (False for None) and defines nothing — `root in [ep_pkg, c_c]`, up
+    over R8000 / R8003 through the container's own PE_PE (R8001), and from the package over R1402 'is referenced by' to every
+    package REFERRING to it; on `TreeOk` and with f above the number of containers that is `containedIn` itself -/
+theorem is_contained_in_as_in_source (cs : List Container) (rf : List PkgRef) (root : Nat) (kr : Container)
+    (hkr : findContainer cs true root = some kr) (f : Nat) (xo : Option SI) (Lc : Loc SI) (C : Calls SI) (v : Val SI)
+    (C' : Calls SI)
+    (h : callAt (scopeWorld cs rf) defs f "is_contained_in" [.inst xo, .inst (some (SI.comp kr))] Lc C = .ok (v, C')) :
+    (v = .bool (cont cs rf root f xo) ∧ C' = C) ∧
+    (∀ p, parentOf xo = some p → TreeOk cs rf → cs.length < f → v = .bool (containedIn cs rf root p)) := by
+  have h1 := contained_sound_interp cs rf root kr hkr f xo Lc C v C' h
+  refine ⟨h1, fun p hp tree hf => ?_⟩
+  rw [h1.1]
+  simp only [cont, hp]
+  rw [contained_fuel_irrelevant tree root p f hf]
+
+/-- applied to the call of the round-3 example (package 3, global, referred to by package 2 inside component 1) -/
+example : boolRun (callAt (scopeWorld [⟨true, 1, "C", .none⟩, ⟨false, 2, "P", .comp 1⟩, ⟨false, 3, "Q", .none⟩] [⟨2, 3⟩]) defs 6
+      "is_contained_in" [.inst (some (SI.pe (.pkg 3))), .inst (some (SI.comp ⟨true, 1, "C", .none⟩))] Loc.empty []) =
+    some (containedFuel [⟨true, 1, "C", .none⟩, ⟨false, 2, "P", .comp 1⟩, ⟨false, 3, "Q", .none⟩] [⟨2, 3⟩] 1 6 (.pkg 3)) := by
+  decide +kernel
+
+end PyxProps.C14
